@@ -96,6 +96,16 @@ Section ExtLemmas.
     ext "broadcast_shapes" [shape_val a; shape_val b] [] st =
     match broadcast_shapes a b with Some s => Ok (shape_val s) st | None => Exc runtime_error st end.
   Proof. unfold ext20_ops, shape_val. cbn. now rewrite !LemmasC07.dec_nats_enc. Qed.
+  Lemma ext_linear x w bo st :
+    ext "torch.nn.functional.linear" [enc_q x; enc_q w; match bo with None => VNone | Some t => enc_q t end] [] st
+    = ret_q "linear" (linear x w bo) st.
+  Proof.
+    pose proof (dec_q_enc_q x) as Hx. pose proof (dec_q_enc_q w) as Hw.
+    destruct bo as [t|].
+    - pose proof (dec_q_enc_q t) as Ht. unfold ext20_ops. cbn. rewrite Hx, Hw.
+      unfold enc_q, enc_f in *. cbn in *. rewrite Ht. reflexivity.
+    - unfold ext20_ops. cbn. rewrite Hx, Hw. reflexivity.
+  Qed.
 End ExtLemmas.
 
 (* ---- tensors inside the interpreter --------------------------------------------------------------- *)
@@ -130,6 +140,21 @@ Proof.
   istep. rewrite Hd. istep. rewrite ext_unsqueeze, Hu. istep.
   rewrite ext_mul, Hm. istep. rewrite ext_sum, Hsum. istep. rewrite Hs. istep.
   rewrite ext_mul_s. istep. eexists. reflexivity.
+Qed.
+
+(* ---- GeneralizedDotProductSoftAttention.score -------------------------------------------------------- *)
+Definition bias_val (bo : option (tn Q)) : val := match bo with None => VNone | Some t => enc_q t end.
+
+Lemma general_score_run expf d (q k w : tn Q) bo dim qu WK P E :
+  dict_get d (VStr "dim") = Some (VInt dim) -> dict_get d (VStr "weight") = Some (enc_q w) ->
+  dict_get d (VStr "bias") = Some (bias_val bo) ->
+  linear k w bo = Some WK -> unsqueeze q dim = Some qu -> mul qu WK = Some P -> sum_dim P (-1) = Some E ->
+  exists st, Interp.run (ext20_ops expf) general_score (score_vars (VDict d) q k) = Ok (enc_q E) st.
+Proof.
+  intros Hd Hw Hb Hl Hu Hm Hsum. unfold Interp.run, general_score, score_vars, globals20.
+  istep. rewrite Hw. istep. rewrite Hb. istep. unfold bias_val. rewrite ext_linear, Hl. istep.
+  rewrite Hd. istep. rewrite ext_unsqueeze, Hu. istep.
+  rewrite ext_mul, Hm. istep. rewrite ext_sum, Hsum. istep. eexists. reflexivity.
 Qed.
 
 (* ---- comparisons of Python ints ------------------------------------------------------------------------ *)
@@ -281,6 +306,86 @@ Proof.
   eexists. reflexivity.
 Qed.
 
+(* check_input raises: a query of the wrong rank *)
+Lemma check_input_rejects_rank expf d (q k v : tn Q) (mt : tn bool) :
+  S (List.length (shp q)) <> List.length (shp k) ->
+  exists st, Interp.run (ext20_ops expf) gsa_check_input (check_vars (VDict d) q k v mt) = Exc value_error st.
+Proof.
+  intros Hrq. unfold Interp.run, gsa_check_input, check_vars, globals20.
+  set (kr := List.length (shp k)) in *.
+  assert (B1 : (Z.of_nat (List.length (shp q)) =? Z.of_nat kr - 1)%Z = false) by lia.
+  cstep. rewrite ext_dim_q. cstep. rewrite ext_dim_q. cstep. fold kr. rewrite B1. cstep.
+  eexists. reflexivity.
+Qed.
+
+(* check_input raises: dim outside the documented range (ranks and feature sizes in order) *)
+Lemma check_input_rejects_dim expf d (q k v : tn Q) (mt : tn bool) dim qs ks sq' sk' :
+  dict_get d (VStr "dim") = Some (VInt dim) ->
+  dict_get d (VStr "query_size") = Some (VInt (Z.of_nat qs)) ->
+  dict_get d (VStr "key_size") = Some (VInt (Z.of_nat ks)) ->
+  S (List.length (shp q)) = List.length (shp k) -> List.length (shp v) = List.length (shp k) ->
+  rev (shp q) = qs :: sq' -> rev (shp k) = ks :: sk' ->
+  (dim > Z.of_nat (List.length (shp k)) - 2 \/ dim < 1 - Z.of_nat (List.length (shp k)))%Z ->
+  exists st, Interp.run (ext20_ops expf) gsa_check_input (check_vars (VDict d) q k v mt) = Exc value_error st.
+Proof.
+  intros Hd Hq Hk Hrq Hrv Hsq Hsk Hdim.
+  unfold Interp.run, gsa_check_input, check_vars, globals20.
+  set (kr := List.length (shp k)) in *.
+  assert (B1 : (Z.of_nat (List.length (shp q)) =? Z.of_nat kr - 1)%Z = true) by lia.
+  assert (B2 : (Z.of_nat kr =? Z.of_nat (List.length (shp v)))%Z = true) by lia.
+  assert (B4 : (Z.of_nat kr =? -1)%Z = false) by lia.
+  cstep. rewrite ext_dim_q. cstep. rewrite ext_dim_q. cstep. fold kr. rewrite B1. cstep.
+  rewrite ext_dim_q. cstep. rewrite B2. cstep.
+  rewrite ext_shape_q. cstep. rewrite (subscript_last _ _ _ _ Hsq). cstep. rewrite Hq. cstep.
+  rewrite Z.eqb_refl. cstep.
+  rewrite ext_shape_q. cstep. rewrite (subscript_last _ _ _ _ Hsk). cstep. rewrite Hk. cstep.
+  rewrite Z.eqb_refl. cstep.
+  rewrite Hd. cstep.
+  destruct (Z.of_nat kr - 2 <? dim)%Z eqn:B3.
+  - cstep. eexists. reflexivity.
+  - assert (B5 : (dim <? - Z.of_nat kr + 1)%Z = true) by lia.
+    cstep. rewrite B4. cstep. rewrite Hd. cstep. rewrite B5. cstep. eexists. reflexivity.
+Qed.
+
+Lemma bshapes_init_none a b x ra y rb : rev a = x :: ra -> rev b = y :: rb -> Model.bshape ra rb = None ->
+  broadcast_shapes (removelast a) (removelast b) = None.
+Proof.
+  intros Ha Hb H. rewrite broadcast_shapes_r, !rev_removelast, Ha, Hb. cbn [tl]. rewrite H. reflexivity.
+Qed.
+
+(* check_input raises: the batch shapes of query and key do not broadcast (torch's RuntimeError) *)
+Lemma check_input_rejects_bcast expf d (q k v : tn Q) (mt : tn bool) dim qs ks sq' sk' qu uq' :
+  dict_get d (VStr "dim") = Some (VInt dim) ->
+  dict_get d (VStr "query_size") = Some (VInt (Z.of_nat qs)) ->
+  dict_get d (VStr "key_size") = Some (VInt (Z.of_nat ks)) ->
+  S (List.length (shp q)) = List.length (shp k) -> List.length (shp v) = List.length (shp k) ->
+  rev (shp q) = qs :: sq' -> rev (shp k) = ks :: sk' ->
+  (1 - Z.of_nat (List.length (shp k)) <= dim <= Z.of_nat (List.length (shp k)) - 2)%Z ->
+  unsqueeze q dim = Some qu -> rev (shp qu) = qs :: uq' ->
+  Model.bshape uq' sk' = None ->
+  exists st, Interp.run (ext20_ops expf) gsa_check_input (check_vars (VDict d) q k v mt) = Exc runtime_error st.
+Proof.
+  intros Hd Hq Hk Hrq Hrv Hsq Hsk Hdim Hu Hsu Hes.
+  unfold Interp.run, gsa_check_input, check_vars, globals20.
+  set (kr := List.length (shp k)) in *.
+  assert (B1 : (Z.of_nat (List.length (shp q)) =? Z.of_nat kr - 1)%Z = true) by lia.
+  assert (B2 : (Z.of_nat kr =? Z.of_nat (List.length (shp v)))%Z = true) by lia.
+  assert (B3 : (Z.of_nat kr - 2 <? dim)%Z = false) by lia.
+  assert (B4 : (Z.of_nat kr =? -1)%Z = false) by lia.
+  assert (B5 : (dim <? - Z.of_nat kr + 1)%Z = false) by lia.
+  cstep. rewrite ext_dim_q. cstep. rewrite ext_dim_q. cstep. fold kr. rewrite B1. cstep.
+  rewrite ext_dim_q. cstep. rewrite B2. cstep.
+  rewrite ext_shape_q. cstep. rewrite (subscript_last _ _ _ _ Hsq). cstep. rewrite Hq. cstep.
+  rewrite Z.eqb_refl. cstep.
+  rewrite ext_shape_q. cstep. rewrite (subscript_last _ _ _ _ Hsk). cstep. rewrite Hk. cstep.
+  rewrite Z.eqb_refl. cstep.
+  rewrite Hd. cstep. rewrite B3. cstep. rewrite B4. cstep. rewrite Hd. cstep. rewrite B5. cstep.
+  rewrite Hd. cstep. rewrite ext_unsqueeze, Hu. cstep. rewrite ext_shape_q. cstep. rewrite subscript_slice, ext_shape_init. cstep.
+  rewrite ext_shape_q. cstep. rewrite subscript_slice, ext_shape_init. cstep.
+  rewrite ext_bshapes, (bshapes_init_none _ _ _ _ _ _ Hsu Hsk Hes). cstep.
+  eexists. reflexivity.
+Qed.
+
 (* ---- GlobalSoftAttention.forward ------------------------------------------------------------------------ *)
 Lemma call_body_ok expf body vars0 v :
   (exists st', Interp.run (ext20_ops expf) body vars0 = Ok v st') -> forall st, call_body expf body vars0 st = Ok v st.
@@ -333,6 +438,32 @@ Section Forward.
       rewrite ext_sum, Hout; fstep; eexists; reflexivity.
   Qed.
 End Forward.
+
+(* an exception of check_input propagates out of forward (the score method is not reached) *)
+Lemma forward_run_exc_nomask expf cls d q k v n :
+  (forall st, call_body expf gsa_check_input (check_vars (VDict d) q k v (ones_bool [1%nat])) st = Exc n st) ->
+  exists st, run_forward expf cls (VDict d) q k v None = Exc n st.
+Proof.
+  intros Hci. unfold run_forward, Interp.run, gsa_forward, forward_vars, mask_val, globals20.
+  fstep. fstep. fstep. fold globals20. fold (check_vars (VDict d) q k v (ones_bool [1%nat])). rewrite Hci. fstep.
+  eexists. reflexivity.
+Qed.
+
+Lemma forward_run_exc_mask expf cls d q k v mt n :
+  (forall st, call_body expf gsa_check_input (check_vars (VDict d) q k v mt) st = Exc n st) ->
+  exists st, run_forward expf cls (VDict d) q k v (Some mt) = Exc n st.
+Proof.
+  intros Hci. unfold run_forward, Interp.run, gsa_forward, forward_vars, mask_val, globals20.
+  fstep. fstep. fold globals20. fold (check_vars (VDict d) q k v mt). rewrite Hci. fstep.
+  eexists. reflexivity.
+Qed.
+
+Lemma forward_run_exc expf cls d q k v m n :
+  (forall mt st, call_body expf gsa_check_input (check_vars (VDict d) q k v mt) st = Exc n st) ->
+  exists st, run_forward expf cls (VDict d) q k v m = Exc n st.
+Proof.
+  intros H. destruct m as [mt|]; [apply forward_run_exc_mask|apply forward_run_exc_nomask]; intros; apply H.
+Qed.
 
 (* ---- the tie: forward (dot-product score) = Model.attend ------------------------------------------------ *)
 Import C20.Model C20.Spec C20.Index C20.Proofs.
@@ -585,3 +716,113 @@ Qed.
 Definition attr_dim : string := "dim".
 Definition attr_query_size : string := "query_size".
 Definition attr_key_size : string := "key_size".
+
+(* GeneralizedDotProductSoftAttention: forward = attend with the "general" score (weight rows W, optional bias) *)
+Theorem forward_general_tie expf tanhf W b dim qs ks q k v m p out :
+  axis_pos dim (List.length (tshape k)) = Some p ->
+  fl_sizes (General W b) qs ks = true ->
+  attend expf (score tanhf (General W b)) q k v m p qs ks = Some out ->
+  exists st, run_forward expf GeneralCls (self_general dim qs ks W b) (flat q) (flat k) (flat v) (option_map flat m)
+             = Ok (enc_q (flat out)) st.
+Proof.
+  intros Hax Hfl Hatt. unfold self_general.
+  apply (forward_tie_score expf GeneralCls _ (score tanhf (General W b)) q k v m dim p qs ks out Hax Hatt);
+    try reflexivity.
+  intros es ps F. apply call_body_ok.
+  destruct (attend_heads _ _ _ _ _ _ _ _ _ _ Hatt) as [Hq Hk].
+  destruct (general_score_ops q k v m p es ps F tanhf W b qs ks Hq Hk Hfl) as [WK [P [Hl [Hm Hs]]]].
+  cbn [score_body].
+  apply (general_score_run expf _ (flat q) (flat k) (rows_tn ks W) (option_map vec_tn b) dim (runsq p (mat q)) WK P);
+    try reflexivity; try assumption.
+  - destruct b; reflexivity.
+  - apply (unsqueeze_query q k v m dim p Hax es ps F).
+Qed.
+
+Theorem source_general_in_kept_range expf W b dim qs ks q k v m p :
+  (forall x, (0 < expf x)%Q) ->
+  axis_pos dim (List.length (tshape k)) = Some p -> fl_sizes (General W b) qs ks = true ->
+  legal_input q k v m p qs ks -> seq_agree k v p ->
+  exists r st,
+    run_forward expf GeneralCls (self_general dim qs ks W b) (flat q) (flat k) (flat v) (option_map flat m)
+    = Ok (enc_q r) st /\
+    forall c j lo hi, valid (rev (shp r)) (c :: j) ->
+      (exists t, t < nth p (tshape k) 0 /\ kept_at m (ins (p - 1) t j) = true) ->
+      (forall t, t < nth p (tshape k) 0 -> kept_at m (ins (p - 1) t j) = true ->
+                 (lo <= bget v (c :: ins (p - 1) t j) <= hi)%Q) ->
+      (lo <= tat (rd 0%Q r) (c :: j) <= hi)%Q.
+Proof.
+  intros Hpos Hax Hfl Hleg Hagree.
+  destruct (legal_attend expf (score (fun x => x) (General W b)) _ _ _ _ _ _ _ Hleg) as [out Hatt].
+  destruct (forward_general_tie expf (fun x => x) W b dim qs ks q k v m p out Hax Hfl Hatt) as [st Hrun].
+  exists (flat out), st. split; [exact Hrun|].
+  intros c j lo hi Hv Hex Hb. rewrite read_flat by exact Hv.
+  unfold flat in Hv. rewrite rshp_mat in Hv.
+  exact (attention_in_kept_range expf _ q k v m p qs ks out Hpos Hatt Hagree c j lo hi Hv Hex Hb).
+Qed.
+
+(* ---- where the model rejects, the source raises ------------------------------------------------------------ *)
+Lemma unsqueeze_query_raw (q k : tensor Q) dim p :
+  axis_pos dim (List.length (tshape k)) = Some p -> S (List.length (tshape q)) = List.length (tshape k) ->
+  unsqueeze (flat q) dim = Some (runsq p (mat q)).
+Proof.
+  intros Hax Hq. destruct (axis_pos_inv _ _ _ Hax) as [Hp [_ [Hw _]]]. unfold flat.
+  rewrite (unsqueeze_runsq (mat q) dim (List.length (tshape k) - 1 - p)).
+  - rewrite rank_mat. f_equal. f_equal. lia.
+  - rewrite rank_mat, Hq. exact Hw.
+  - rewrite rank_mat. lia.
+Qed.
+
+Section Rejects.
+  Variables (expf : Q -> Q) (cls : score_class) (d : list (val * val)) (dim : Z) (qs ks : nat).
+  Variables (q k v : tensor Q) (m : option (tensor bool)).
+  Hypothesis Hd : dict_get d (VStr "dim") = Some (VInt dim).
+  Hypothesis Hqs : dict_get d (VStr "query_size") = Some (VInt (Z.of_nat qs)).
+  Hypothesis Hks : dict_get d (VStr "key_size") = Some (VInt (Z.of_nat ks)).
+
+  Notation fwd := (run_forward expf cls (VDict d) (flat q) (flat k) (flat v) (option_map flat m)).
+
+  (* query must have one fewer dimension than key *)
+  Theorem forward_rejects_rank :
+    S (List.length (tshape q)) <> List.length (tshape k) -> exists st, fwd = Exc value_error st.
+  Proof.
+    intros H. apply forward_run_exc. intros mt st. apply call_body_exc.
+    apply check_input_rejects_rank. unfold flat. rewrite !shp_mat, !rev_length. exact H.
+  Qed.
+
+  (* dim outside [-rank + 1, rank - 2] (the model: axis_pos = None; -1 apart, which check_input does not test) *)
+  Theorem forward_rejects_dim sq' sk' :
+    S (List.length (tshape q)) = List.length (tshape k) -> List.length (tshape v) = List.length (tshape k) ->
+    tshape q = qs :: sq' -> tshape k = ks :: sk' ->
+    axis_pos dim (List.length (tshape k)) = None -> dim <> (-1)%Z ->
+    exists st, fwd = Exc value_error st.
+  Proof.
+    intros Hrq Hrv Eq Ek Hax Hm1. apply forward_run_exc. intros mt st. apply call_body_exc.
+    apply (check_input_rejects_dim expf d (flat q) (flat k) (flat v) mt dim qs ks sq' sk'); try assumption;
+      unfold flat; rewrite ?shp_mat, ?rshp_mat, ?rev_length; try assumption.
+    unfold axis_pos in Hax.
+    destruct ((1 - Z.of_nat (List.length (tshape k)) <=? dim)%Z
+              && (0 <=? (if (dim <? 0)%Z then (dim + Z.of_nat (List.length (tshape k)))%Z else dim))%Z
+              && ((if (dim <? 0)%Z then (dim + Z.of_nat (List.length (tshape k)))%Z else dim)
+                  <? Z.of_nat (List.length (tshape k)) - 1)%Z) eqn:B; [discriminate|].
+    revert B. destruct (dim <? 0)%Z eqn:N; intros B. all: match goal with |- ?g => idtac g end. all: lia.
+  Qed.
+
+  (* the batch shapes of query.unsqueeze(dim) and key do not broadcast *)
+  Theorem forward_rejects_bcast p sq' sk' :
+    S (List.length (tshape q)) = List.length (tshape k) -> List.length (tshape v) = List.length (tshape k) ->
+    tshape q = qs :: sq' -> tshape k = ks :: sk' ->
+    axis_pos dim (List.length (tshape k)) = Some p ->
+    bshape (tl (tshape (unsq p q))) (tl (tshape k)) = None ->
+    exists st, fwd = Exc runtime_error st.
+  Proof.
+    intros Hrq Hrv Eq Ek Hax Hb. apply forward_run_exc. intros mt st. apply call_body_exc.
+    destruct (axis_pos_inv _ _ _ Hax) as [Hp _].
+    rewrite unsq_shape, Eq, Ek in Hb. replace p with (S (p - 1)) in Hb by lia. rewrite ins_S in Hb. cbn [tl] in Hb.
+    apply (check_input_rejects_bcast expf d (flat q) (flat k) (flat v) mt dim qs ks sq' sk'
+             (runsq p (mat q)) (ins (p - 1) 1 sq')); try assumption;
+      unfold flat; rewrite ?shp_mat, ?rshp_mat, ?rev_length; try assumption.
+    - apply (axis_pos_range _ _ _ Hax).
+    - apply (unsqueeze_query_raw q k dim p Hax Hrq).
+    - rewrite rshp_runsq, rshp_mat, Eq. replace p with (S (p - 1)) at 1 by lia. rewrite ins_S. reflexivity.
+  Qed.
+End Rejects.
